@@ -260,9 +260,11 @@ func runCheck(def *CheckDef, flags map[string]string) int {
 	if stats.Unknown > 0 {
 		run.problems = append(run.problems, fmt.Sprintf("%d solver queries returned unknown", stats.Unknown))
 	}
-	for _, e := range stats.SolverErrors {
-		run.problems = append(run.problems, "solver error: "+e)
-		break
+	if stats.Unknown > 0 {
+		for _, e := range stats.SolverErrors {
+			run.problems = append(run.problems, "solver error: "+e)
+			break
+		}
 	}
 	for _, l := range def.ExpectLabels {
 		if labels[l] == 0 {
@@ -435,7 +437,7 @@ func runCheck(def *CheckDef, flags map[string]string) int {
 		"bounds":                        def.Bounds(tier),
 		"stubs":                         def.Stubs,
 		"queries": map[string]interface{}{"total": stats.Queries, "branch": stats.BranchQueries, "assertion": stats.AssertQueries,
-			"sat": stats.Sat, "unsat": stats.Unsat, "unknown": stats.Unknown},
+			"sat": stats.Sat, "unsat": stats.Unsat, "unknown": stats.Unknown, "solver_restarts_after_error": stats.Restarts},
 		"byte_domain": map[string]interface{}{"decisions": stats.DomainDecisions, "rechecked_by_solver": stats.DomainRechecks, "disagreements": stats.DomainDisagreements,
 			"recheck_rate": engine.RecheckRate},
 		"solver":               backend,
